@@ -412,6 +412,8 @@ var cpClasses = [][]rune{
 	{0x10a, 0x20a, 0x200a, 0x4e0a, 0x10d, 0x122, 0x15c, 0x12c, 0x13a, 0x15b, 0x15d, 0x17b, 0x17d, 0x120, 0x109, 0x2022, 0x205c, 0x1005c, 0x1000a}, // low byte (or low 16 bits) is a structural ASCII character
 	{0x0b, 0x0c, 0x85, 0xa0, 0x1680, 0x2000, 0x2003, 0x2028, 0x2029, 0x202f, 0x205f, 0x3000, 0xfeff, 0x200b},                                      // unicode.IsSpace beyond JSON's four (and two look-alikes that are not)
 	{0x378, 0x30000, 0xeffff}, // unassigned
+	{0xad, 0x600, 0x61c, 0x200b, 0x200e, 0x202a, 0x202e, 0x2060, 0x2066, 0xfeff, 0xfff9, 0x110bd, 0x1bca0, 0x1d173, 0xe0020, 0xe007f, 0x13430}, // format characters (Cf), BMP and astral
+	{0x301, 0x20dd, 0x1d165, 0xe0100, 0xf0000, 0x10fffd, 0xe000, 0x1f1ec, 0x1f3f4},                                                        // combining marks, variation selectors, private use, flag bases
 	{'a', 'b', 'z', 'A', '0', '9', ' ', '.', '#', ':', ',', '[', ']', '{', '}', 'é', 'ß', '中', 'u', 'n', 't', '%', 's', 'd', 'v', '<', '>', '&', '\'', '`'},
 }
 
